@@ -472,7 +472,9 @@ class XPathContext:
 
         :param axis: the context axis, default is 'following-sibling'.
         """
-        if isinstance(self.item, XPathNode):
+        if isinstance(self.item, (AttributeNode, NamespaceNode)):
+            return  # attribute and namespace nodes have no siblings
+        elif isinstance(self.item, XPathNode):
             if self.document is not None or self.item is not self.root:
                 item = self.item
 
@@ -552,6 +554,8 @@ class XPathContext:
         if isinstance(self.item, XPathNode):
             if self.document is not None or self.item is not self.root:
                 item = self.item
+                if isinstance(item, (AttributeNode, NamespaceNode)) and item.parent is not None:
+                    item = item.parent  # the axis starts from the parent element
 
                 if (root := item.parent) is not None:
                     status = self.item, self.axis
